@@ -20,7 +20,8 @@ def run(ctx):
     events = [{"mtype": k, "meta": v} for k, v in reg.items()]
     traces = [{"id": "registry", "events": events}]
     # class-level metadata must still equal the specification after the classes have been used (instances constructed with
-    # every unit, every fixture loaded, modules cloned): a second Register trace is taken afterwards
+    # every unit, every fixture loaded, modules cloned, files naming types in other spellings offered to the reader, MetaModules mirroring
+    # embedded controllers: a second Register trace is taken afterwards
     import io
     import rv.api as api
     import rv.modules
@@ -43,6 +44,30 @@ def run(ctx):
             pass
     for name, data in fmt.fixtures():
         fmt.load(data)
+    # files naming a type in another spelling, or an unknown type (loading may refuse them; the registry must not learn them)
+    from .. import tlv
+    nvar = 0
+    for t in spec:
+        cls = rv.modules.MODULE_CLASSES.get(t)
+        if cls is None or t == "Output":
+            continue
+        try:
+            chunks = tlv.split(api.Synth(cls()).read())
+        except Exception:
+            continue
+        for alt in sorted({t.lower(), t.upper(), t.title(), t.swapcase(), t + " ", " " + t, t.replace(" ", ""), t + "2"} - {t}):
+            fmt.load(tlv.join([(cid, alt.encode() + b"\0" if cid == b"STYP" else pl) for cid, pl in chunks]))
+            nvar += 1
+    ctx.cov["type_name_variants_loaded"] = nvar
+    # MetaModules whose user-defined controllers mirror controllers of embedded modules (built, saved, loaded, cloned)
+    from .. import gen
+    for k in range(6):
+        try:
+            mm = gen.rand_module(ctx.rnd, rv.modules.MODULE_CLASSES["MetaModule"], spec, depth=1, in_project=False)
+            fmt.load(api.Synth(mm).read())
+            mm.clone()
+        except Exception:
+            pass
     reg2 = meta.registry()
     traces.append({"id": "registry-after-use", "events": [{"mtype": k, "meta": v} for k, v in reg2.items()]})
     nfields = 0
